@@ -5,6 +5,7 @@ package main
 import (
 	"fmt"
 	"go/ast"
+	"go/token"
 	"go/types"
 	"strings"
 )
@@ -13,7 +14,7 @@ func init() { register("C30", checkC30) }
 
 func checkC30(p *Prog, r *Result, tier string) {
 	r.Technique = "defer-stack order and dominance rules on the per-workload closure of RunAndWait (go/cfg), channel/wait-group protocol rules for the output stream, write-ahead rule W2 for the lambda log entry"
-	r.Explanation = "In the per-workload closure of RunAndWait: D1 wg.Done is the first registered defer and the final-message send the second (so the exit-code/err message is the last message of that workload and the wait group is always released); D2 the removal defer is registered after the commit defer (LIFO: removal runs before the log entry is committed) and both after the final-send defer; D3 every engine/store interaction of the closure (before or after the log entry) is dominated by the registration of the removal defer (no path can leave a started workload without the removal armed); D4 the removal runs under a context detached from the caller's cancellation; H1/H5 the output channel is closed exactly once by a first-statement defer after waiting for every per-workload goroutine; W2 the lambda log entry is committed only after removal; RS removal is synchronous (drains the remove stream)."
+	r.Explanation = "In the per-workload closure of RunAndWait: D1 wg.Done is the first registered defer and the final-message send the second (so the exit-code/err message is the last message of that workload and the wait group is always released); D2 the removal defer is registered after the commit defer (LIFO: removal runs before the log entry is committed) and both after the final-send defer; D3 every engine/store interaction of the closure (before or after the log entry) is dominated by the registration of the removal defer (no path can leave a started workload without the removal armed); D4 the removal runs under a context detached from the caller's cancellation; H1/H5 the output channel is closed exactly once by a first-statement defer after waiting for every per-workload goroutine; W2 the lambda log entry is committed only after removal; RS removal is synchronous (drains the remove stream); DR the RPC handler keeps receiving from the run-and-wait channel until it closes (the producers send without an escape, so an early exit of the consumer strands them before their cleanup)."
 	r.NotCovered = "removal failures being ignored by doRemoveWorkloadSync (it only logs); engine behaviour; the content of the exit message"
 	a := newChanAnalyzer(p, r)
 	F := p.Fn("cluster/calcium.(*Calcium).RunAndWait")
@@ -172,6 +173,82 @@ func checkC30(p *Prog, r *Result, tier string) {
 	} else {
 		r.undecided("RS", "doRemoveWorkloadSync", "", "not found")
 	}
+	checkRunAndWaitDrained(p, r)
+}
+
+// DR: the per-workload goroutines send on an unbuffered channel with no escape, so their cleanup (removal, exit code,
+// log commit) is only reached if the consumer keeps receiving until the channel closes. Every loop of the RPC handler that
+// ranges over the run-and-wait channel must therefore have no early exit.
+func checkRunAndWaitDrained(p *Prog, r *Result) {
+	r.min("DR", 2)
+	H := p.Fn("rpc.(*Vibranium).RunAndWait")
+	if H == nil {
+		r.undecided("DR", "rpc.(*Vibranium).RunAndWait", "", "not found")
+		return
+	}
+	isMsgChan := func(t types.Type) bool {
+		ch, ok := t.Underlying().(*types.Chan)
+		return ok && strings.HasSuffix(ch.Elem().String(), "types.AttachWorkloadMessage")
+	}
+	n := 0
+	var visit func(fn *FuncNode)
+	visit = func(fn *FuncNode) {
+		fn.inspectBody(func(x ast.Node) bool {
+			rg, ok := x.(*ast.RangeStmt)
+			if !ok || fn.typeOf(rg.X) == nil || !isMsgChan(fn.typeOf(rg.X)) {
+				return true
+			}
+			n++
+			key := fmt.Sprintf("%s / loop #%d over the run-and-wait messages runs until the channel closes", fn.Name, n)
+			why := ""
+			var walk func(node ast.Node, inInnerLoop bool)
+			walk = func(node ast.Node, inInnerLoop bool) {
+				ast.Inspect(node, func(y ast.Node) bool {
+					switch s := y.(type) {
+					case *ast.FuncLit:
+						return false
+					case *ast.ReturnStmt:
+						why = "return at " + p.pos(s)
+					case *ast.BranchStmt:
+						if s.Tok == token.GOTO || (s.Tok == token.BREAK && (!inInnerLoop || s.Label != nil)) {
+							why = s.Tok.String() + " at " + p.pos(s)
+						}
+					case *ast.ForStmt:
+						if y != node {
+							walk(s.Body, true)
+							return false
+						}
+					case *ast.RangeStmt:
+						if y != node {
+							walk(s.Body, true)
+							return false
+						}
+					case *ast.SwitchStmt, *ast.SelectStmt, *ast.TypeSwitchStmt:
+						if y != node {
+							walk(y.(ast.Stmt), true) // a bare break leaves the switch/select, not the loop
+							return false
+						}
+					case *ast.CallExpr:
+						if id, ok := s.Fun.(*ast.Ident); ok && id.Name == "panic" {
+							why = "panic at " + p.pos(s)
+						}
+					}
+					return true
+				})
+			}
+			walk(rg.Body, false)
+			if why == "" {
+				r.ok("DR", key, p.pos(rg), "no early exit")
+			} else {
+				r.bad("DR", key, p.pos(rg), "the consumer stops receiving ("+why+") while workloads may still be producing: their goroutines block forever on the unbuffered channel before reaching removal, exit-code report and log commit, and the stream never closes")
+			}
+			return true
+		})
+		for _, l := range fn.Lits {
+			visit(l)
+		}
+	}
+	visit(H)
 }
 
 // ctxOriginDetached: identifier e (a context) is defined from context.With*(utils.NewInheritCtx(..)) or utils.NewInheritCtx(..).
